@@ -744,6 +744,10 @@ func (w *World) exec(line string) Result {
 		p := w.SK.GetParams(w.at())
 		var dcs sdk.DecCoins
 		for _, kvp := range strings.Split(f[1], ",") {
+			if f[1] == "-" {
+				dcs = sdk.DecCoins{} // an empty list, which the parameter's validator accepts
+				break
+			}
 			kv := strings.SplitN(kvp, ":", 2)
 			dcs = append(dcs, sdk.NewDecCoinFromDec(kv[0], decTok(kv[1]))) // in the order given: the first configured denomination is the first listed
 		}
